@@ -180,3 +180,210 @@ func SorterByPosition(m map[string]int) []string {
 	sort.Sort(byPos{ks})
 	return ks
 }
+
+// InnerLabel must stay silent: the labelled break leaves a search loop inside the body, not the
+// loop over the map.
+func InnerLabel(a map[string][]int, b map[string]int) {
+	for k, vs := range a {
+		n := 0
+	search:
+		for {
+			for _, v := range vs {
+				if v > n {
+					break search
+				}
+			}
+			n++
+		}
+		b[k] = n
+	}
+}
+
+// LabelledFirstHit must be reported: the labelled break ends the loop over the map.
+func LabelledFirstHit(m map[string][]int, out map[string]int) {
+entries:
+	for k, vs := range m {
+		for _, v := range vs {
+			if v > 0 {
+				break entries
+			}
+		}
+		out[k] = len(vs)
+	}
+}
+
+// ContinueOuter must be reported: the labelled continue ends the loop over the map.
+func ContinueOuter(ms []map[string]int, out map[string]int) {
+outer:
+	for _, m := range ms {
+		for k, v := range m {
+			if v > 0 {
+				continue outer
+			}
+			out[k] = v
+		}
+	}
+}
+
+// SortKeyFunc must stay silent: the key is computed by a local function that tests whether its
+// look-up succeeded; ties are broken by the element.
+func SortKeyFunc(m map[string]int, rank map[string]int) []string {
+	var ks []string
+	for k := range m {
+		ks = append(ks, k)
+	}
+	key := func(s string) int {
+		if r, ok := rank[s]; ok {
+			return r
+		}
+		return 256
+	}
+	sort.Slice(ks, func(i, j int) bool {
+		if a, b := key(ks[i]), key(ks[j]); a != b {
+			return a < b
+		}
+		return ks[i] < ks[j]
+	})
+	return ks
+}
+
+// SortKeyFuncPartial must be reported: the same key, no tie-break.
+func SortKeyFuncPartial(m map[string]int, rank map[string]int) []string {
+	var ks []string
+	for k := range m {
+		ks = append(ks, k)
+	}
+	key := func(s string) int {
+		if r, ok := rank[s]; ok {
+			return r
+		}
+		return 256
+	}
+	sort.Slice(ks, func(i, j int) bool { return key(ks[i]) < key(ks[j]) })
+	return ks
+}
+
+// SortKeyCounting must be reported: the key function changes what it returns from call to call.
+func SortKeyCounting(m map[string]int, rank map[string]int) []string {
+	var ks []string
+	for k := range m {
+		ks = append(ks, k)
+	}
+	n := 0
+	key := func(s string) int {
+		if r, ok := rank[s]; ok {
+			return r
+		}
+		n++
+		return n
+	}
+	sort.Slice(ks, func(i, j int) bool {
+		if a, b := key(ks[i]), key(ks[j]); a != b {
+			return a < b
+		}
+		return ks[i] < ks[j]
+	})
+	return ks
+}
+
+type rankedName struct {
+	rank int
+	name string
+}
+
+// Decorate must stay silent: the keys are looked up once into a slice of (rank, name) pairs, the
+// pairs are sorted by both fields, and the names are written back slot by slot.
+func Decorate(m map[string]int, rank map[string]int) []string {
+	var ks []string
+	for k := range m {
+		ks = append(ks, k)
+	}
+	ps := make([]rankedName, len(ks))
+	for i, k := range ks {
+		ps[i] = rankedName{rank: rank[k], name: k}
+	}
+	sort.Slice(ps, func(i, j int) bool {
+		if ps[i].rank != ps[j].rank {
+			return ps[i].rank < ps[j].rank
+		}
+		return ps[i].name < ps[j].name
+	})
+	for i, p := range ps {
+		ks[i] = p.name
+	}
+	return ks
+}
+
+// DecoratePartial must be reported: the pairs are ordered by rank only.
+func DecoratePartial(m map[string]int, rank map[string]int) []string {
+	var ks []string
+	for k := range m {
+		ks = append(ks, k)
+	}
+	ps := make([]rankedName, len(ks))
+	for i, k := range ks {
+		ps[i] = rankedName{rank: rank[k], name: k}
+	}
+	sort.Slice(ps, func(i, j int) bool { return ps[i].rank < ps[j].rank })
+	for i, p := range ps {
+		ks[i] = p.name
+	}
+	return ks
+}
+
+// DecorateHalf must be reported: only a part of the names is overwritten from the sorted pairs.
+func DecorateHalf(m map[string]int, rank map[string]int) []string {
+	var ks []string
+	for k := range m {
+		ks = append(ks, k)
+	}
+	ps := make([]rankedName, len(ks)/2)
+	for i, k := range ks {
+		if i < len(ps) {
+			ps[i] = rankedName{rank: rank[k], name: k}
+		}
+	}
+	sort.Slice(ps, func(i, j int) bool {
+		if ps[i].rank != ps[j].rank {
+			return ps[i].rank < ps[j].rank
+		}
+		return ps[i].name < ps[j].name
+	})
+	for i, p := range ps {
+		ks[i] = p.name
+	}
+	return ks
+}
+
+// DecorateForgotten must be reported: the pairs are sorted, the names are returned as they were.
+func DecorateForgotten(m map[string]int, rank map[string]int) []string {
+	var ks []string
+	for k := range m {
+		ks = append(ks, k)
+	}
+	ps := make([]rankedName, len(ks))
+	for i, k := range ks {
+		ps[i] = rankedName{rank: rank[k], name: k}
+	}
+	sort.Slice(ps, func(i, j int) bool {
+		if ps[i].rank != ps[j].rank {
+			return ps[i].rank < ps[j].rank
+		}
+		return ps[i].name < ps[j].name
+	})
+	return ks
+}
+
+// ImageUnsorted must be reported: the image of the unordered keys is returned unsorted.
+func ImageUnsorted(m map[string]int) []int {
+	var ks []string
+	for k := range m {
+		ks = append(ks, k)
+	}
+	var ls []int
+	for _, k := range ks {
+		ls = append(ls, len(k))
+	}
+	sort.Strings(ks)
+	return ls
+}
